@@ -238,6 +238,14 @@ def run_scenario(sc):
         else:
             ds, vs = lists_of(b0)
             out["margins"] = margins_lists(models[im0], ds, vs, sc["metric"])
+    if sc.get("kind") == "wass-formats":
+        # spectral gaps of the raw LOT matrix around the n_components cut: with a (near-)degenerate gap the SVD
+        # subspace is not determined by the data and the compressed outputs of two fits may legitimately differ
+        raw = raw_lot(sc, models["spmatrix"], base["spmatrix"])
+        sv = np.linalg.svd(raw, compute_uv=False)
+        k = min(sc["n_components"], len(sv))
+        gaps = [(sv[i] - (sv[i + 1] if i + 1 < len(sv) else 0.0)) / max(sv[0], 1e-300) for i in range(k)]
+        out["sv_gap"] = float(min(gaps)) if gaps else 1.0
     if sc.get("isometry"):
         m = models["spmatrix"]
         raw = raw_lot(sc, m, base["spmatrix"] if isinstance(base, dict) and "spmatrix" in base else base)
